@@ -213,6 +213,25 @@ func c17(x *ctx) {
 			}
 		}
 	}
+	// a top-level method named like the first block parameter: inside the block the bare name is the parameter
+	// (also when the parameter's declared type is Untyped), and after the block it is the method again
+	{
+		n := len(progs)
+		for i := 0; i < n; i++ {
+			p := progs[i]
+			if !strings.Contains(p.feat, ":do:shadow=false:none") || strings.Contains(p.feat, "nv=0") {
+				continue
+			}
+			if !thorough && len(p.probes) > 0 && p.probes[0].want != "untyped" {
+				continue // quick: only parameters whose declared type is Untyped
+			}
+			var probes []probe
+			for _, pb := range p.probes {
+				probes = append(probes, probe{pb.row + 3, pb.want, pb.what})
+			}
+			progs = append(progs, prog{"def e\n  :zq\nend\n" + p.src, probes, p.feat + ":method-named-like-param"})
+		}
+	}
 	// overloaded block methods (a generated class Bkc): the first declaration takes no block, only the second
 	// declares block_parameters (the shape of Dir.glob / Dir.chdir in the shipped configuration); 0-1 positional
 	// arguments; the call is written with and without parentheses, with do/end and braces
